@@ -32,7 +32,8 @@ type RunOut struct {
 	Worlds       int // number of simulated worlds (recoveries count)
 	Tape         []uint32
 	Sample       any
-	Pinned       *Plan // plan that reproduces the violation directly (search engines)
+	Pinned       *Plan     // plan that reproduces the violation directly (search engines)
+	FinalFS      *simos.FS // file system of the last world (traced runs only)
 }
 
 func newOut() *RunOut {
